@@ -12,7 +12,7 @@ import eqlgen as G
 from core import Case
 
 PID = "C10"
-LEAN_MODULES = ["KrroodVerif.Props.C10", "KrroodVerif.Props.C10Q"]
+LEAN_MODULES = ["KrroodVerif.Props.C10", "KrroodVerif.Props.C10Q", "KrroodVerif.Props.C09Lazy"]
 THEOREMS = [
     "KrroodVerif.Eql.C10_trace_vis",
     "KrroodVerif.Eql.C10_trace_rows",
@@ -30,6 +30,8 @@ THEOREMS = [
     "KrroodVerif.Eql.C10_continuity_prefix",
     "KrroodVerif.Eql.C10_continuity_rows",
     "KrroodVerif.Eql.C10_continuity_trace",
+    "KrroodVerif.Quant.C09_consumed",
+    "KrroodVerif.Quant.C09_consumed_upper",
     "KrroodVerif.Eql.C10Q_exists_vis",
     "KrroodVerif.Eql.C10Q_exists_rows",
     "KrroodVerif.Eql.C10Q_existsWalk_vis",
@@ -106,6 +108,11 @@ def generate(rng, tier, n):
         lit = sorted(rng.sample(range(0, 4), rng.randrange(1, 3)))
         line = "(flat (objs " + " ".join("(" + " ".join(map(str, xs)) + ")" for xs in objs) + ") (lit " + " ".join(map(str, lit)) + "))"
         out.append(Case(line, ("flatten-generator",), "random"))
+    # result-count constraints that ARE violated: the evaluation must stop pulling with the element that reveals it
+    for kind in ("exactly", "atMost", "atLeast", "the"):
+        for v in ((1,) if kind == "the" else range(0, 4)):
+            for k in range(0, 7):
+                out.append(Case(f"(qpulls {kind} {v} {k})", ("quantified-pulls", kind), "exhaustive"))
     # a quantifier at the root over a quantifier-free body: exists hands a witness on the moment it is found, for_all
     # stops pulling the universal variable once no candidate is left
     for _ in range(max(60, n // 5)):
@@ -140,7 +147,7 @@ def gen_root_quantifier(rng):
 
 
 def revive(case: Case) -> Case:
-    if case.line.startswith("(silent") or case.line.startswith("(flat"):
+    if case.line.startswith("(silent") or case.line.startswith("(flat") or case.line.startswith("(qpulls"):
         return case
     if case.payload is None:
         case.payload = G.parse_query(case.line)
@@ -157,6 +164,8 @@ def shrink(case: Case):
 def nontrivial(case: Case, spec: str) -> bool:
     if case.line.startswith("(silent"):
         return True
+    if case.line.startswith("(qpulls"):
+        return int(spec.split("=")[1]) < int(case.line.split()[-1].rstrip(")"))
     if case.line.startswith("(flat"):
         return not spec.startswith("n=0 ")
     if "(forall " in case.line and case.line.count("(forall ") == 1 and "(cond (forall " in case.line:
@@ -262,7 +271,38 @@ def _flat(line: str) -> str:
             + " ".join(f"k{k}:[" + ",".join(map(str, c)) + "]" for k, _, c in parts))
 
 
+def _qpulls(line: str) -> str:
+    from krrood.entity_query_language.entity import let, entity
+    from krrood.entity_query_language.quantify_entity import an, the
+    from krrood.entity_query_language.result_quantification_constraint import Exactly, AtLeast, AtMost
+    _, kind, v, n = line.strip("()").split()
+    v, n = int(v), int(n)
+    pulled = [0]
+    def gen():
+        for i in range(n):
+            pulled[0] += 1
+            yield G.P(i, 0, {"a": i + 1})
+    x = let(object, gen(), name="x")
+    e = entity(x, x.a >= 1)
+    q = the(e) if kind == "the" else an(e, quantification={"exactly": Exactly, "atLeast": AtLeast, "atMost": AtMost}[kind](v))
+    silent = pulled[0] == 0
+    try:
+        if kind == "the":
+            q.evaluate()
+        else:
+            for _r in q.evaluate():
+                pass
+    except Exception:  # noqa: BLE001  (the violated constraint; which one is C09's subject)
+        pass
+    return f"pulls={pulled[0]}" if silent else "touched:construction"
+
+
 def _one(case: Case) -> str:
+    if case.line.startswith("(qpulls"):
+        try:
+            return _qpulls(case.line)
+        except Exception as e:  # noqa: BLE001
+            return "exc:" + type(e).__name__
     if case.line.startswith("(flat"):
         try:
             return _flat(case.line)
@@ -305,6 +345,8 @@ def compare(impl: str, other: str) -> bool:
     """impl refines the model: silent construction, prefix property, same number of results, pulls <= model"""
     if other == "silent" or impl == "silent" or impl.startswith("touched:"):
         return impl == other
+    if other.startswith("pulls="):
+        return impl.startswith("pulls=") and int(impl[6:]) <= int(other[6:])
     if other == "exc" or impl.startswith("exc:"):
         return other == "exc" and impl.startswith("exc:")
     if "silent=1" not in impl or "prefix=1" not in impl:
